@@ -38,6 +38,26 @@ from .corpus import (
 
 B = "builtins."
 
+
+def _str_constant(e: ast.AST) -> str | None:
+    """The string a constant expression denotes: a literal, or a module-level constant (also built by `+` from others)."""
+    if isinstance(e, ast.Constant):
+        return e.value if isinstance(e.value, str) else None
+    if isinstance(e, (ast.Name, ast.BinOp)):
+        try:
+            from .corpus import module_of
+
+            v = module_of(e).eval_const(e)
+        except Exception:
+            return None
+        return v if isinstance(v, str) else None
+    return None
+
+
+def _is_digit_set(e: ast.AST) -> bool:
+    v = _str_constant(e)
+    return bool(v) and all(ch in "0123456789" for ch in v)
+
 YAML_ERRORS = [
     "yaml.parser.ParserError",
     "yaml.scanner.ScannerError",
@@ -183,10 +203,7 @@ def _digit_test_encloses(node: ast.AST, name: str) -> bool:
                 and isinstance(t.ops[0], ast.In)
                 and isinstance(t.left, ast.Name)
                 and t.left.id == name
-                and isinstance(t.comparators[0], ast.Constant)
-                and isinstance(t.comparators[0].value, str)
-                and t.comparators[0].value
-                and all(ch in "0123456789" for ch in t.comparators[0].value)
+                and _is_digit_set(t.comparators[0])
             ):
                 # the node must be in the body (true branch)
                 n = node
@@ -290,9 +307,8 @@ def _hex_loop_guard(call: ast.Call) -> bool:
                     if (
                         isinstance(t, ast.Compare)
                         and isinstance(t.ops[0], ast.NotIn)
-                        and isinstance(t.comparators[0], ast.Constant)
-                        and isinstance(t.comparators[0].value, str)
-                        and set(t.comparators[0].value) <= HEX
+                        and bool(_str_constant(t.comparators[0]))
+                        and set(_str_constant(t.comparators[0])) <= HEX
                         and isinstance(t.left, ast.Call)
                         and isinstance(t.left.func, ast.Attribute)
                         and t.left.func.attr == "peek"
@@ -1044,6 +1060,18 @@ class EscapeAnalysis:
             f = e.func
             if isinstance(f, ast.Attribute) and f.attr == "with_traceback":
                 return self.exc_class_of(f.value, fi)
+            if isinstance(f, ast.Attribute) and isinstance(f.value, ast.Call):
+                # a method called on a freshly built exception: `Err(...).clone(...)` -> the method's annotated return class
+                inner = self.exc_class_of(f.value, fi)
+                ci = self.c.find_class(inner) if inner else None
+                if ci is not None:
+                    m_ = self.c.lookup_method(ci, f.attr)
+                    if m_ is not None and not m_.is_lambda and m_.node.returns is not None:
+                        r = self.g.ann_class(m_.node.returns, m_.module)
+                        if r:
+                            return self.h.canonical(f"{r[1].module.name}.{r[1].name}")
+                        if unparse(m_.node.returns).strip("'\"") in ("Self", ci.name):
+                            return inner
             d = dotted(f)
             if d:
                 full = mod.resolve(d)
@@ -1378,15 +1406,32 @@ class EscapeAnalysis:
                         if k.arg != "converters":
                             continue
                         n += 1
-                        if not isinstance(k.value, ast.Dict):
-                            bad.append(f"{fi.module.site(call)} converters= is not a dict literal")
+                        table = k.value
+                        # a module-level constant, possibly wrapped read-only: NAME = MappingProxyType({...}) / dict({...})
+                        if isinstance(table, ast.Name) and table.id in fi.module.const_nodes:
+                            table = fi.module.const_nodes[table.id]
+                        if isinstance(table, ast.Call) and (dotted(table.func) or "").split(".")[-1] in ("MappingProxyType", "dict", "frozendict") and len(table.args) == 1 and not table.keywords:
+                            table = table.args[0]
+                        if not isinstance(table, ast.Dict):
+                            bad.append(f"{fi.module.site(call)} converters= is not a dict literal (or a module constant bound to one)")
                             continue
-                        for v in k.value.values:
+
+                        def docutils_only(e: ast.expr, depth: int = 0) -> bool:
+                            f = e.func if isinstance(e, ast.Call) else e
+                            full = fi.module.resolve(dotted(f) or "")
+                            if full.startswith("docutils.parsers.rst.directives."):
+                                return True
+                            # a package function that only wraps docutils converters
+                            pf = fi.module.functions.get(dotted(f) or "")
+                            if pf is not None and not pf.is_lambda and depth < 2:
+                                calls = [c for c in pf.local_nodes() if isinstance(c, ast.Call)]
+                                return bool(calls) and all(docutils_only(c, depth + 1) for c in calls) and not any(isinstance(x, ast.Raise) for x in pf.local_nodes())
+                            return False
+
+                        for v in table.values:
                             exprs = [v.body] if isinstance(v, ast.Lambda) else [v]
                             for e in exprs:
-                                f = e.func if isinstance(e, ast.Call) else e
-                                full = fi.module.resolve(dotted(f) or "")
-                                if not full.startswith("docutils.parsers.rst.directives."):
+                                if not docutils_only(e):
                                     bad.append(f"{fi.module.site(call)} {unparse(v)}")
             self.converter_table_count = n
             return bad
@@ -1529,8 +1574,7 @@ class EscapeAnalysis:
             if not isinstance(a, ast.If):
                 continue
             t = a.test
-            if not (isinstance(t, ast.Compare) and len(t.ops) == 1 and isinstance(t.ops[0], ast.In) and isinstance(t.comparators[0], ast.Constant)
-                    and isinstance(t.comparators[0].value, str) and t.comparators[0].value and all(ch in "0123456789" for ch in t.comparators[0].value)):
+            if not (isinstance(t, ast.Compare) and len(t.ops) == 1 and isinstance(t.ops[0], ast.In) and _is_digit_set(t.comparators[0])):
                 continue
             n_ = c
             while parent(n_) is not a:
